@@ -133,7 +133,9 @@ def gen_db_case(rng, in_scope: bool = True) -> dict[str, Any]:
                     span += 1
                     is_int = int_mode == "int" or (int_mode == "mixed" and rng.chance(0.5))
                     xs = [str(rng.randint(-span, span)) if is_int or rng.chance(0.4) else _dy(rng) for _ in range(dim)]
-                    key = (is_int, tuple(xs))
+                    # distinct by VALUE whatever the dtype: an all-zero int64 point and an all-zero
+                    # float64 point have the same bytes, hence the same hash, and are one database key
+                    key = tuple(Fraction(t) for t in xs)
                     if key not in seen:
                         seen.add(key)
                         break
@@ -1302,6 +1304,7 @@ def run(ctx) -> Result:
     res.assumptions = [
         "in-scope histories never overwrite an output already present in the file with a different value (append mode does not propagate overwrites by design); such histories are probed against the model only",
         "the points of a history have distinct 64-bit hashes",
+        "the points of a history differ by value (an all-zero int64 point and an all-zero float64 point share their bytes and are the same key)",
     ]
     rng = ctx.rng
     corpus = load_corpus()
